@@ -36,7 +36,7 @@ One(n, d) == (n :> d)
 (* Shape                                                                    *)
 LeafBasic   == {B(n) : n \in {"int", "string", "bool", "float64", "byte", "rune", "uintptr", "complex128", "error", "any"}} \cup {Unsafe}
 LeafLocal   == {N("SRC", "LT"), N("SRC", "lt"), N("SRC", "LI"), N("SRC", "LE"), N("SRC", "LA")}
-LeafForeign == {N("FX", "T"), N("FX", "I"), N("FX", "E"), N("FX", "A"), N("FY", "T"), N("FZ", "T"), N("FV", "T"), N("FM", "T"), N("FS", "T"),
+LeafForeign == {N("FD", "T"), N("FD", "E"), N("FX", "T"), N("FX", "I"), N("FX", "E"), N("FX", "A"), N("FY", "T"), N("FZ", "T"), N("FV", "T"), N("FM", "T"), N("FS", "T"),
                 N("FX", "Client"), N("FY", "Client"), N("FX", "Token"), N("FV", "Token")}   \* aliases of types the destination cannot name
 LeafStd     == {N("Sio", "Reader"), N("Scontext", "Context"), N("Stime", "Duration")}
 LeafInst    == {Inst("SRC", "LG", <<Int>>), Inst("FX", "G", <<N("FY", "T")>>), Inst("SRC", "LG2", <<Str, N("FX", "T")>>)}
@@ -168,7 +168,7 @@ AuxDecls ==
   ("Q"  :> Decl(<< >>, << >>, <<Meth("Foo", <<V("a", Str)>>, <<V("", Int)>>, FALSE), Meth("Get", << >>, <<V("", Err)>>, FALSE),
                                   Meth("Read", << >>, << >>, FALSE), Meth("Close", <<V("xs", N("FX", "T"))>>, << >>, TRUE)>>)) @@
   ("LGI" :> Decl(<<TPar("T", AnyT)>>, << >>, <<Meth("Get", << >>, <<V("", TP("T"))>>, FALSE), Meth("Put", <<V("v", TP("T"))>>, << >>, FALSE)>>))
-EmbedPool == {N("SRC", "J"), N("FX", "I"), N("Sio", "ReadWriter"), Inst("SRC", "LGI", <<Int>>), Inst("FX", "GI", <<N("FY", "T")>>),
+EmbedPool == {B("error"), B("any"), N("SRC", "J"), N("FX", "I"), N("Sio", "ReadWriter"), Inst("SRC", "LGI", <<Int>>), Inst("FX", "GI", <<N("FY", "T")>>),
               N("SRC", "R2"), N("SRC", "K3"), N("FX", "RW"), N("Sfmt", "Stringer"), N("Ssync", "Locker"), N("Sio", "Reader")}
 RECURSIVE SetToSeq(_)
 SetToSeq(S) == IF S = {} THEN << >> ELSE LET x == CHOOSE x \in S : TRUE IN <<x>> \o SetToSeq(S \ {x})
@@ -244,8 +244,15 @@ ConstraintsMulti ==
    Union(<<Slice(N("Stime", "Duration"))>>), Union(<<Map(Str, Ptr(N("FX", "T")))>>), Union(<<CtxFn>>),
    Union(<<Slice(N("SRC", "LT")), Str>>), Union(<<Int, Slice(N("FY", "T"))>>),
    Iface(<< >>, <<Union(<<Slice(N("Stime", "Duration")), Str>>), Union(<<Slice(N("Stime", "Duration"))>>)>>)}
-ASSUME \A cn \in ConstraintsMulti \cup Constraints : ConstraintModels(cn) # {}      \* every constraint of the alphabet is satisfiable in the model
-GenMulti == {Gen1("T", cn) : cn \in ConstraintsMulti}
+ASSUME \A cn \in ConstraintsMulti \cup Constraints \cup {Iface(<<Meth("Less", <<V("", TP("T"))>>, <<V("", Bool)>>, FALSE)>>, << >>)} : ConstraintModels(cn) # {}      \* every constraint of the alphabet is satisfiable in the model
+\* recursive constraint (the constraint mentions its own type parameter); type parameters used in results only
+LessM == Meth("Less", <<V("", TP("T"))>>, <<V("", Bool)>>, FALSE)
+GenRecursive == {Gen1("T", Iface(<<LessM>>, << >>)), Gen1("T", Iface(<<LessM, StringM>>, <<Cmp>>))}
+GenResultOnly == {P("generic/result-only/" \o Show(cn), "generic", "result-only", "cs",
+                    One("I", Decl(<<TPar("T", cn)>>, << >>, <<Meth("Get", << >>, <<V("", TP("T"))>>, FALSE),
+                                                               Meth("All", << >>, <<V("", Slice(TP("T"))), V("", Err)>>, FALSE)>>)), "I")
+                  : cn \in {AnyT, Cmp, Union(<<Slice(N("Stime", "Duration"))>>)}}
+GenMulti == {Gen1("T", cn) : cn \in ConstraintsMulti} \cup GenRecursive \cup GenResultOnly
 GenericAll == {Gen1(n, cn) : n \in TpNames, cn \in Constraints} \cup Gen2 \cup GenEmbed \cup NamedInst \cup GenMulti
 
 (* ------------------------------------------------------------------------ *)
@@ -276,7 +283,8 @@ UnnamedProg(ts) ==
      One("I", Decl(<< >>, << >>, <<Meth("M", <<V("", ts[1]), V("_", ts[2])>>, <<V("", ts[1]), V("", Err)>>, FALSE),
                                      Meth("N", <<V("s", Int), V("", ts[2])>>, <<V("n", ts[2])>>, FALSE),
                                      Meth("V", <<V("", Int), V("", ts[1])>>, << >>, TRUE),
-                                     Meth("W", <<V("ctx", N("Scontext", "Context"))>>, <<V("", Err), V("", ts[1])>>, FALSE)>>)), "I")
+                                     Meth("W", <<V("ctx", N("Scontext", "Context"))>>, <<V("", Err), V("", ts[1])>>, FALSE),
+                                     Meth("X", <<V("_", ts[1]), V("_", ts[1])>>, <<V("_", ts[2]), V("_", ts[2]), V("err", Err)>>, FALSE)>>)), "I")
    EXCEPT !.idclass = "unnamed"]
 \* GENERATED names that equal a predeclared identifier: an unnamed parameter of a named type whose de-capitalised name is
 \* predeclared (Byte -> byte, Error -> error, Len -> len), next to composite uses of that identifier in the same signature.
@@ -297,12 +305,22 @@ GenPreAll == {GenPreProg(x) : x \in GenTypeLike \cup GenFuncLike}
 LocalAll == {LocalProg(n) : n \in LocalNamed} \cup {UnnamedProg(ts) : ts \in UnnamedSigs} \cup GenPreAll
 
 (* ------------------------------------------------------------------------ *)
+(* Ext: interfaces of packages OUTSIDE the module (stdlib), configured directly; the mock always lives in a separate   *)
+(* package.  "SRC" is that package; no source file is written (extpkg tells the harness which package it is).           *)
+WrM == Meth("Write", <<V("p", Bts)>>, <<V("n", Int), V("err", Err)>>, FALSE)
+ExtProg(pkg, name, decls, target) == P("ext/" \o name \o "." \o target, "ext", name \o "." \o target, name, decls, target) @@ [extpkg |-> pkg]
+ExtAll == {ExtProg("Sio", "io", ("Reader" :> Decl(<< >>, << >>, <<RdM>>)) @@ ("Writer" :> Decl(<< >>, << >>, <<WrM>>))
+                                 @@ ("ReadWriter" :> Decl(<< >>, <<N("SRC", "Reader"), N("SRC", "Writer")>>, << >>)), "ReadWriter"),
+           ExtProg("Sio", "io", One("Reader", Decl(<< >>, << >>, <<RdM>>)), "Reader"),
+           ExtProg("Sfmt", "fmt", One("Stringer", Decl(<< >>, << >>, <<StringM>>)), "Stringer")}
+
+(* ------------------------------------------------------------------------ *)
 \* abstraction tables the harness cross-checks against its concretisation (package names, go/types method order)
 AllPkgIds == ForeignPkgs \cup StdPkgs \cup {"TM"}
 ASSUME PrintT(<<"TABLES", ToJson([pkgnames |-> [p \in AllPkgIds |-> PkgName(p, "")], methodorder |-> MethodOrder])>>)
 
-MCQuick    == ShapeQuick \cup IdentQuick \cup CaseClash \cup PkgsQuick \cup EmbedQuick \cup GenericAll \cup MNameAll \cup LocalAll \cup MultiQuick
-MCThorough == ShapeThorough \cup IdentAll \cup CaseClash \cup PkgsThorough \cup EmbedThorough \cup GenericAll \cup MNameAll \cup LocalAll \cup MultiThorough
+MCQuick    == ShapeQuick \cup IdentQuick \cup CaseClash \cup PkgsQuick \cup EmbedQuick \cup GenericAll \cup MNameAll \cup LocalAll \cup MultiQuick \cup ExtAll
+MCThorough == ShapeThorough \cup IdentAll \cup CaseClash \cup PkgsThorough \cup EmbedThorough \cup GenericAll \cup MNameAll \cup LocalAll \cup MultiThorough \cup ExtAll
 \* small smoke set used while developing
 MCSmoke    == {ShapeProg(t, "d1") : t \in {Int, N("FX", "T"), Chan("recv", N("FY", "T"))}} \cup {IdentProg(x, "p1") : x \in {"io", "mock", "string"}}
 =============================================================================
